@@ -140,7 +140,7 @@ func (r *rng) intn(n int) int {
 	}
 	return int(r.next() % uint64(n))
 }
-func (r *rng) bool() bool { return r.next()&1 == 1 }
+func (r *rng) bool() bool          { return r.next()&1 == 1 }
 func pick[T any](r *rng, xs []T) T { return xs[r.intn(len(xs))] }
 
 // hashSel selects index i with probability num/den, deterministically from seed.
